@@ -21,8 +21,13 @@ F, I, SP, mkop, mkdoc = O.F, O.I, O.SP, O.mkop, O.mkdoc
 SHAPE_WRAPPERS = [("t", "Int"), ("tn", "Int!"), ("l", "[Int]"), ("ln", "[Int!]"), ("nl", "[Int]!"), ("ll", "[[Int]]")]
 
 
+# composite-typed fields of the same objects: leaf vs composite (always a conflict, whatever the wrapping) and
+# composite vs composite (a conflict iff the wrapping differs)
+SHAPE_COMPOSITES = [("o", "Node"), ("ol", "[Node]"), ("u", "Shape")]
+
+
 def _schema_r():
-    fields = {n: S._f(t) for n, t in SHAPE_WRAPPERS}
+    fields = {n: S._f(t) for n, t in SHAPE_WRAPPERS + SHAPE_COMPOSITES}
     return {
         "name": "R",
         "query": "Query",
@@ -55,6 +60,28 @@ def shape_docs():
         # through named fragments (multi-letter names), list parent
         frags = [["OnA", "A", [], [F(fa, alias="x")]], ["OnB", "B", [], [F(fb, alias="x")]]]
         yield "R", "shape:spreads:anys:%s" % pair, label, {"doc": mkdoc(mkop([F("anys", [SP("OnA"), SP("OnB")])]), frags), "vars": {}}
+    # leaf vs composite and composite vs composite under one response name, parents mutually exclusive
+    sub = lambda: [I("A", [F("t")]), I("B", [F("t")])]  # noqa: E731
+
+    def fld(fn, leaf):
+        return F(fn, alias="x") if leaf else F(fn, sub(), alias="x")
+
+    sides = [(fn, tn, True) for fn, tn in SHAPE_WRAPPERS[:3]] + [(fn, tn, False) for fn, tn in SHAPE_COMPOSITES]
+    for (fa, ta, la), (fb, tb, lb) in itertools.combinations_with_replacement(sides, 2):
+        if la and lb:
+            continue
+        if la != lb:
+            label = "OverlappingFieldsCanBeMergedChecker"
+        else:
+            # two composites: same wrapping = mergeable (the named types may differ), else a shape conflict
+            label = None if ta.count("[") == tb.count("[") else "OverlappingFieldsCanBeMergedChecker"
+        pair = "%s-vs-%s" % (ta, tb)
+        for parent in ("any", "anys"):
+            for order in ((("A", fa, la), ("B", fb, lb)), (("B", fb, lb), ("A", fa, la))):
+                if order[0][1] == order[1][1] and order[0][0] == "B":
+                    continue
+                sels = [I(tn, [fld(fn, leaf)]) for tn, fn, leaf in order]
+                yield "R", "shape:leaf-composite:%s:%s:%s-first" % (parent, pair, order[0][0]), label, {"doc": mkdoc(mkop([F(parent, sels)])), "vars": {}}
 
 
 def argument_order_docs():
@@ -224,9 +251,48 @@ def two_usage_docs():
             c = doc(mk(), vtype, vdef)
             c["doc"]["frags"] = [list(f) for f in frags]
             yield "W", "two-usages:%s:%s" % (tag, vtag), label, c
+    # a field argument with a default and a directive argument without one (same printed type Boolean!)
+    for order in ("default-first", "default-last"):
+        for dname in ("skip", "include"):
+            for vtag, vtype, vdef, label in (("nullable", "Boolean", None, VIAP), ("nullable-null-default", "Boolean", "null", VIAP), ("non-null", "Boolean!", None, None), ("nullable-with-default", "Boolean", "true", None)):
+                sels = [F("flagged", args={"flag": "$v"}), F("plain", dirs=[[dname, {"if": "$v"}]])]
+                if order == "default-last":
+                    sels.reverse()
+                yield "W", "two-usages:directive-%s:%s:%s" % (dname, order, vtag), label, doc(sels, vtype, vdef)
+                sels = [F("flagged", args={"flag": "$v"}), SP("Cond")] if order == "default-first" else [SP("Cond"), F("flagged", args={"flag": "$v"})]
+                c = doc(sels, vtype, vdef)
+                c["doc"]["frags"] = [["Cond", "Query", [], [I(None, [F("plain")], dirs=[[dname, {"if": "$v"}]])]]]
+                yield "W", "two-usages:directive-%s-in-fragment:%s:%s" % (dname, order, vtag), label, c
     # only the defaulted position uses the variable: valid
     yield "W", "two-usages:only-defaulted-position:nullable", None, doc([F("pair", args={"a": "$v", "b": "1"})], "Int")
     yield "W", "two-usages:only-defaulted-position:input-field", None, doc([F("pairobj", args={"x": "{a: $v, b: 1}"})], "Int")
 
 
 FAMILIES["two-usages"] = two_usage_docs
+
+
+# ---------------------------------------------------------------------------------------------
+# ONE fragment using $v, spread (directly or through another fragment) by TWO or THREE operations that each
+# declare $v with their own type: every operation is judged on its own, whatever came earlier in the document
+
+
+def shared_fragment_variable_docs():
+    VIAP = "VariablesInAllowedPositionChecker"
+    decls = [("nonnull", "Int!", None, True), ("nullable", "Int", None, False), ("other-type", "String!", None, False), ("nullable-default", "Int", "3", True)]
+    for form in ("direct", "nested"):
+        if form == "direct":
+            frags = [["Use", "Query", [], [F("scalar_a1", args={"x": "$v"})]]]
+        else:
+            frags = [["Outer", "Query", [], [F("plain"), SP("Use")]], ["Use", "Query", [], [F("scalar_a1", args={"x": "$v"})]]]
+        top = "Use" if form == "direct" else "Outer"
+        for n in (2, 3):
+            for combo in itertools.product(decls, repeat=n):
+                if n == 3 and len({c[0] for c in combo}) < 2:
+                    continue
+                ops = [mkop([SP(top)], name="Op%s" % "ABC"[i], vars_=[["v", t, d]]) for i, (_n, t, d, _ok) in enumerate(combo)]
+                label = None if all(c[3] for c in combo) else VIAP
+                tag = "shared-fragment-variable:%s:%s" % (form, "+".join(c[0] for c in combo))
+                yield "W", tag, label, {"doc": mkdoc(ops, [list(f) for f in frags]), "vars": {"v": [1]}}
+
+
+FAMILIES["shared-fragment-variable"] = shared_fragment_variable_docs
